@@ -65,6 +65,10 @@ def manifest_doc(m):
     for tag, key in (("activity", "acts"), ("service", "svcs"), ("receiver", "rcvs"), ("provider", "prvs")):
         for c in m[key]:
             app["children"].append(component(tag, c))
+    for c in m.get("aliases", []):
+        e = component("activity-alias", c)
+        e["attrs"].append(dict(name="targetActivity", ns=U, resid=0x01010202, type=3, value=written(m["acts"][0]["name"]) if m["acts"] else ".Missing"))
+        app["children"].append(e)
     root["children"].append(app)
     return root
 
@@ -125,14 +129,33 @@ def random_manifest(rnd):
     def comp():
         mn = rnd.random() < 0.3
         return dict(name=name(), enabled=rnd.random() < 0.85, main=mn, launcher=mn if rnd.random() < 0.8 else not mn)
+    def distinct(comps, pkg):
+        """components with distinct completed names (a manifest declaring one component twice is not well formed)"""
+        seen, out = set(), []
+        for c in comps:
+            full = written(c["name"]) if "." in written(c["name"]) and not c["name"]["lead"] else ".".join(pkg) + "." + written(c["name"]).lstrip(".")
+            if full not in seen:
+                seen.add(full)
+                out.append(c)
+        return out
     perms = [dict(name=rnd.choice(["android.permission.CAMERA", "android.permission.INTERNET", "NODOT", "com.x.P", "com.x.permission.C2D"]),
                   maxsdk=rnd.choice([0, 0, 18, 22])) for _ in range(rnd.randrange(0, 6))]
-    return dict(pkg=rnd.choice([["com", "x"], ["single"], ["org", "example", "app"]]), vcode=rnd.choice([1, 42, 2147483647]), vname=rnd.choice(["1.0", "2.3-beta", "é"]),
+    pkg = rnd.choice([["com", "x"], ["single"], ["org", "example", "app"]])
+    m = dict(pkg=pkg, vcode=rnd.choice([1, 42, 2147483647]), vname=rnd.choice(["1.0", "2.3-beta", "é"]),
                 perms=perms, acts=[comp() for _ in range(rnd.randrange(0, 6))], svcs=[dict(comp(), main=False, launcher=False) for _ in range(rnd.randrange(0, 3))],
                 rcvs=[dict(comp(), main=False, launcher=False) for _ in range(rnd.randrange(0, 3))], prvs=[dict(comp(), main=False, launcher=False) for _ in range(rnd.randrange(0, 2))],
                 minsdk=rnd.choice([0, 1, 21]), target=rnd.choice([0, 4, 33]),
                 features=rnd.sample(["android.hardware.camera", "android.hardware.type.watch", "nodotfeature"], rnd.randrange(0, 3)),
                 libraries=rnd.sample(["org.apache.http.legacy", "com.google.android.maps", "nodotlib"], rnd.randrange(0, 3)))
+    for key in ("acts", "svcs", "rcvs", "prvs"):
+        m[key] = distinct(m[key], pkg)
+    # activity aliases, some of them launcher entries whose names sort before / after the activities'
+    cand = []
+    for _ in range(rnd.randrange(0, 3)):
+        ml = rnd.random() < 0.6
+        cand.append(dict(name=dict(lead=rnd.random() < 0.5, segs=[rnd.choice(["Alias", "AAA", "zzz"])]), enabled=rnd.random() < 0.9, main=ml, launcher=ml))
+    m["aliases"] = [c for c in distinct(m["acts"] + cand, pkg) if c not in m["acts"]]
+    return m
 
 
 def run(chk):
@@ -148,6 +171,7 @@ def run(chk):
     recs, ms = [], []
     for st in states:
         m = to_py(dict(st["m"]))
+        m["aliases"] = []
         m["vcodetext"] = str(m["vcode"])
         raw = make_apk(m, utf8=len(recs) % 2 == 1)
         recs.append(dict(m=m, obs=observe(apk, raw)))
